@@ -135,14 +135,16 @@ class Prov:
             if n.get('kind') == 'CallExpr':
                 cn = astdb.callee_name(n)
                 args = astdb.call_args(n)
-                if cn in ('strcpy', 'strcat', 'strncpy', 'memcpy', '__builtin_strcpy') and args:
+                if cn in ('strcpy', 'strcat', 'strncpy', 'memcpy', 'memmove', '__builtin_strcpy', '__builtin_memmove') and args:
                     d = astdb.strip(args[0], casts=True)
                     if d.get('kind') == 'DeclRefExpr':
                         did = d['referencedDecl']['id']
                         if did == vid:
                             src = self.of(args[1], fn, depth + 1, seen)
-                            if cn in ('strcpy', '__builtin_strcpy') and not conditional:
-                                out = set()      # a straight-line strcpy replaces the whole string
+                            whole = cn in ('strcpy', '__builtin_strcpy') or (
+                                cn in ('memmove', '__builtin_memmove', 'memcpy') and len(args) == 3 and self._strlen_plus_one(args[2], args[1]))
+                            if whole and not conditional:
+                                out = set()      # a straight-line strcpy (or memmove of strlen+1 bytes) replaces the whole string
                             out |= src
                         elif did in derived:
                             src = self.of(args[1], fn, depth + 1, seen)
@@ -179,6 +181,19 @@ class Prov:
                     rec(c, cond)
         rec(body, False)
         return out
+
+    @staticmethod
+    def _strlen_plus_one(n, src):
+        """n is strlen(src) + 1"""
+        n = astdb.strip(n, casts=True)
+        if n.get('kind') != 'BinaryOperator' or n.get('opcode') != '+':
+            return False
+        a, b = [astdb.strip(x, casts=True) for x in kids(n)]
+        if astdb.const_int(a) == 1:
+            a, b = b, a
+        if astdb.const_int(b) != 1 or a.get('kind') != 'CallExpr' or astdb.callee_name(a) not in ('strlen', '__builtin_strlen'):
+            return False
+        return astdb.expr_text(astdb.call_args(a)[0]) == astdb.expr_text(src)
 
     @staticmethod
     def _mentions(node, ids):
